@@ -276,3 +276,35 @@ fn c15_forward_too_big() { forward_case(62, 4) }
 #[kani::stub(crate::datastructures::messages::Message::serialize, crate::datastructures::messages::verif_messages::serialize_rec)]
 #[kani::stub(crate::time::Interval::as_core_duration, crate::verif_root::stubs::as_core_duration_int)]
 fn c15_forward_dropped_uses_no_room() { forward_case(28, 36) }
+
+// @harness c15_forward_exact_fit_concrete
+// @props C15 C03
+// @tier quick
+// @variant dl128_lists2
+// @stubbing yes
+// @timeout 1800
+// @mem 12
+// @functions Port::send_announce, TlvSetBuilder::add, ForwardedTLV::size
+// @bounds concrete master port (fresh instance, path trace off), provider with one ORGANIZATION_EXTENSION_PROPAGATE TLV from the parent whose wire size equals the whole room (value 60 octets, room 64 at MAX_DATA_LEN 128; 956 of 960 at the real size), first value octet symbolic
+// @assume provider honours the documented contract of next_if_smaller (wire size <= max_size is handed over), as statime-linux's TlvForwarder does
+#[kani::proof]
+#[kani::unwind(20)]
+#[kani::stub(crate::datastructures::messages::Message::serialize, crate::datastructures::messages::verif_messages::serialize_rec)]
+#[kani::stub(crate::time::Interval::as_core_duration, crate::verif_root::stubs::as_core_duration_int)]
+fn c15_forward_exact_fit_concrete() {
+    let state = fresh_state(false, false);
+    let cfg = PortCfg::plain();
+    let mut port = mk_running(&state, cfg, RecClock::quiet(), RecFilterCfg { ret_delay: None, ret_update: false }, PortState::Master);
+    let parent = state.peek().parent_ds.parent_port_identity;
+    let mut vbuf = [0u8; 64];
+    vbuf[0] = kani::any();
+    let mut prov = TwoTlvs { buf: &vbuf, ty: [TlvType::OrganizationExtensionPropagate, TlvType::OrganizationExtensionPropagate], len: [60, 0],
+                             sender: [parent, parent], next: 0, n: 1, calls: 0 };
+    let (d, _) = drain(port.handle_announce_timer(&mut prov));
+    assert!(d.n == 2 && d.send_general == 1, "C15: forwarding made the Announce fail to be sent");
+    assert!(ser_tlv_count() == 1 && ser_suffix_len() == 64 && d.general_len == 128, "C15: a TLV that exactly fits must be forwarded");
+    let (ty, l, v) = ser_tlv(0);
+    assert!(ty == 0x4000 && l == 60 && v[0] == vbuf[0]);
+    kani::cover!(true, "sent");
+    core::mem::forget(port);
+}
